@@ -68,22 +68,29 @@ def main():
     for c in req.get("lazy", []):
         try:
             cls = getattr(_laws, c["cls"])
-            kw = dict(c["init"])
-            if c["cls"] == "Isotropic":
-                m = cls(c["dim"], **kw)
-            else:
-                m = cls(c["dim"], **kw)
-            reads = []
+            held = {k: param(v) for k, v in c["init"].items()}      # the user's own objects
+            m = cls(c["dim"], **held)
+            reads, fresh = [], []
             for op in c["ops"]:
-                if op[0] == "set":
-                    setattr(m, op[1], op[2])
+                if op[0] == "set":                                   # a new object
+                    held[op[1]] = param(op[2])
+                    setattr(m, op[1], held[op[1]])
+                elif op[0] == "set_copy":                            # an equal-valued copy
+                    held[op[1]] = np.array(held[op[1]], dtype=float, copy=True) if isinstance(held[op[1]], np.ndarray) else float(held[op[1]])
+                    setattr(m, op[1], held[op[1]])
+                elif op[0] == "mutate_set":                          # edit the SAME array in place, re-assign it
+                    if isinstance(held[op[1]], np.ndarray):
+                        held[op[1]] *= op[2]
+                    else:
+                        held[op[1]] = held[op[1]] * op[2]
+                    setattr(m, op[1], held[op[1]])
                 elif op[0] == "notify":
                     m.Need_Update()
-                elif op[0] == "readC":
-                    reads.append(tolist(m.C))
-                elif op[0] == "readS":
-                    reads.append(tolist(m.S))
-            out["lazy"].append({"reads": reads})
+                elif op[0] in ("readC", "readS"):
+                    f = cls(c["dim"], **{k: (np.array(v, copy=True) if isinstance(v, np.ndarray) else v) for k, v in held.items()})
+                    reads.append(tolist(m.C if op[0] == "readC" else m.S))
+                    fresh.append(tolist(f.C if op[0] == "readC" else f.S))
+            out["lazy"].append({"reads": reads, "fresh": fresh, "final": {k: tolist(getattr(m, k)) for k in held}})
         except Exception as ex:  # noqa
             out["lazy"].append({"raises": "%s: %s" % (type(ex).__name__, ex)})
     for c in req.get("boundary", []):
